@@ -117,7 +117,7 @@ func genLeafConc(r *rand.Rand, tier string) []string {
 	// What a Left returns must be the count at some moment of the call (judged like a free run).
 	ns := 90
 	if tier == "thorough" {
-		ns = 2500
+		ns = 1200
 	}
 	for i := 0; i < ns; i++ {
 		t := &node{kind: "C"}
